@@ -109,20 +109,20 @@ var plans = map[string]*plan{
 	"C01": {
 		Level: "exploration",
 		Rule: "sequential histories (15..40 steps) of connect / SUBSCRIBE (1..3 filters) / UNSUBSCRIBE / PUBLISH (client QoS 0..2, Server.Publish) / DISCONNECT / abrupt close over 3..6 raw clients and 2 in-process subscribers against a real broker over net.Pipe inside a testing/synctest bubble; synctest.Wait() after every step is true quiescence, so the set of packets each client holds is final. A 15-line model (client -> filter -> granted QoS, MQTT 4.7 matcher) predicts for every publish, per subscriber, between 1 and k copies (k matching subscriptions) with QoS multiset min(pub, granted), none for everybody else; topic, CRC-carrying payload and unique id are checked. " +
-			"Filters/names over {a, b, a 50-char literal, a UTF-8 literal, empty level (marked subset), +, #} with 1..4 levels; payload sizes 17..4000, 8 KiB block edge and BufferSize-8192 limit for BufferSize 16K/64K/default. distinct = (filter shape, topic shape, verdict, pub QoS, granted QoS).",
-		Quick:          []batchSpec{{Test: "TestC01Seq", N: 8, Timeout: 15 * m}},
-		Thorough:       []batchSpec{{Test: "TestC01Seq", N: 16, Timeout: 60 * m}},
-		EvalStats:      []string{"c01.seq.publishes"},
-		Floors:         map[string]int64{"c01.seq.histories": 1300, "c01.seq.publishes": 12000, "c01.seq.wildcard_must": 3000, "c01.seq.wildcard_mustnot": 20000, "classes": 400},
+			"Filters/names over {a, b, a 50-char literal, a UTF-8 literal, empty level (marked subset), +, #} with 1..4 levels; payload sizes 17..4000, 8 KiB block edge and BufferSize-8192 limit for BufferSize 16K/64K/default. Concurrent (real time): publishers stream numbered QoS 1 messages while subscribers subscribe/unsubscribe; every operation is logged at the client boundary with call/return stamps from one counter and the history of each (subscriber, topic) pair is checked with porcupine against the one-bit model 'subscribed' (a publish accepted after the SUBACK must be delivered, one accepted after the UNSUBACK must not); and under the C17 stress workload every stable subscriber must receive every acknowledged publish exactly once. distinct = (filter shape, topic shape, verdict, pub QoS, granted QoS) + run configurations.",
+		Quick:          []batchSpec{{Test: "TestC01Seq", N: 8, Timeout: 15 * m}, {Test: "TestC01Conc", N: 4, Timeout: 15 * m}, {Test: "TestC01Stress", N: 4, Timeout: 15 * m}},
+		Thorough:       []batchSpec{{Test: "TestC01Seq", N: 16, Timeout: 60 * m}, {Test: "TestC01Conc", N: 16, Timeout: 60 * m}, {Test: "TestC01Conc", N: 4, Race: true, Timeout: 60 * m}, {Test: "TestC01Stress", N: 8, Timeout: 60 * m}},
+		EvalStats:      []string{"c01.seq.publishes", "c01.conc.ops", "c01s.published"},
+		Floors:         map[string]int64{"c01.seq.histories": 1300, "c01.seq.publishes": 12000, "c01.seq.wildcard_must": 3000, "c01.seq.wildcard_mustnot": 20000, "c01.conc.histories": 190, "c01.conc.ops": 15000, "c01s.runs": 22, "c01s.exactly_once_streams": 3000, "classes": 400},
 		FloorsThorough: map[string]int64{"c01.seq.histories": 30000, "c01.seq.publishes": 300000, "classes": 600},
 		Assumptions:    []string{"synctest.Wait() returns only when every goroutine of broker and harness is durably blocked, i.e. at quiescence", "raw clients acknowledge promptly; takeover of a live client id is not exercised"},
 	},
 	"C07": {
 		Level: "exploration",
 		Rule: "a raw client sends generated SUBSCRIBE packets (1..40 filters: valid / invalid ('#' not last, wildcard inside a level, empty) / '$'-prefixed / repeated, requested QoS 0..2 and 3/0x7f/0x80 built with the reference encoder) and UNSUBSCRIBE packets (1..40 filters held / not held / repeated) with topics.MaxQosAllowed in {0,1,2}; at quiescence (synctest) either the connection is closed or exactly one SUBACK/UNSUBACK with the request's id arrived, one code per filter in order: min(requested, max) for an accepted filter, 0x80 for a rejected one. " +
-			"Afterwards a second client publishes probes (names derived from every listed filter incl. the parent level of '#') and the deliveries must equal the model of granted filters. distinct = (filter kind, requested QoS, server max, request size bucket).",
-		Quick:          []batchSpec{{Test: "TestC07", N: 8, Timeout: 15 * m}},
-		Thorough:       []batchSpec{{Test: "TestC07", N: 16, Timeout: 60 * m}},
+			"Afterwards a second client publishes probes (names derived from every listed filter incl. the parent level of '#') and the deliveries must equal the model of granted filters. Concurrent variant: the porcupine-checked subscribe/unsubscribe/publish histories of C01 (a publish whose call follows the SUBACK's return must be delivered, one whose call follows the UNSUBACK's return must not). distinct = (filter kind, requested QoS, server max, request size bucket).",
+		Quick:          []batchSpec{{Test: "TestC07", N: 8, Timeout: 15 * m}, {Test: "TestC01Conc", N: 2, Timeout: 15 * m}},
+		Thorough:       []batchSpec{{Test: "TestC07", N: 16, Timeout: 60 * m}, {Test: "TestC01Conc", N: 8, Timeout: 60 * m}},
 		EvalStats:      []string{"c07.subscribes", "c07.unsubscribes"},
 		Floors:         map[string]int64{"c07.scenarios": 2000, "c07.subscribes": 5000, "c07.unsubscribes": 5000, "c07.probes": 100000, "classes": 150},
 		FloorsThorough: map[string]int64{"c07.scenarios": 70000, "classes": 150},
